@@ -62,26 +62,55 @@ def build(tier, seed):
     return cases
 
 
+CTOR_TAILS = {"none": ("", 0), "call0": ("c0()", 0), "call1": ("c1()", 1), "call2": ("c2()", 2),
+              "dots0": ("...", 0), "dots2": ("...", 2), "paren": ("(c2())", 1)}
+
+
+def ctor_val(i):
+    return i % 251 + 1          # = Val(i) of CtorTrace.tla; few distinct constants keep the compiler's constant search cheap
+
+
+def ctor_source(n, tail):
+    """the chunk returns the table built by ONE constructor: n positional items ctor_val(1..n), then the tail"""
+    text, r = CTOR_TAILS[tail]
+    items = ", ".join(str(ctor_val(i)) for i in range(1, n + 1))
+    body = "{" + items + (", " if n and text else "") + text + "}"
+    pre = ("local function c0() end\nlocal function c1() return 900001 end\n"
+           "local function c2() return 900001, 900002 end\n")
+    if tail.startswith("dots"):
+        args = ", ".join(str(900000 + j) for j in range(1, r + 1))
+        return pre + "local function va(...) return " + body + " end\nreturn va(" + args + ")\n"
+    return pre + "return " + body + "\n"
+
+
+def ctor_probe(n, r):
+    ks = {1, 2, 49, 50, 51, 100, 101, n - 1, n, 25500, 25501, 25550, 25551, 25600, 25601, 25650, 25651, 25700, 25701}
+    ks.update(range(n + 1, n + r + 2))
+    ks.update((n + r + 50, n + r + 51, n + 50, n + 51, 0))
+    return sorted(k for k in ks if k >= 0)
+
+
 def dyn_sources(thorough):
-    """terminating programs that are RUN on the real VM for the dispatch law: constructors that end in the
-    extended SETLIST form with 0 / 1 / 2 trailing values, and a few programs walking over every kind of group"""
+    """terminating programs that are RUN on the real VM: (a) constructors around the switch to the extended
+    SETLIST form (batch 512 = items 25551..), known to the spec side as descriptors (n, tail); (b) small
+    constructors around the 50-item flush; (c) a program walking over every kind of multi-word group.
+    Returns (name, src, descriptor or None)."""
     out = []
     pre = "local function z() end\nlocal function one() return 1 end\nlocal function two() return 1, 2 end\nlocal function va(...) return {%s} end\n"
-    for n in ((25550, 25551, 25600, 25601, 25650) if thorough else (25551, 25600)):
-        items = ", ".join(["7"] * n)
-        for last, call in (("z()", "z"), ("one()", "one"), ("two()", "two"), ("...", "va"), ("(z())", "pz")):
-            if last == "...":
-                src = (pre % (items + ", ...")) + "local t0, t1 = va(), va(1)\nreturn #t0, #t1\n"
-            else:
-                src = (pre % "...") + "local t = {" + items + ", " + last + "}\nlocal n = #t\nreturn n\n"
-            out.append(("%d/%s" % (n, call), src))
+    if thorough:
+        big = [(n, t) for n in (25549, 25550, 25551, 25599, 25600, 25601, 25650, 25651) for t in CTOR_TAILS]
+    else:
+        big = [(n, t) for n in (25550, 25601) for t in CTOR_TAILS] + [(25651, "none"), (25600, "dots2"), (25549, "call2")]
+    small = [(n, t) for n in (0, 1, 49, 50, 51, 100, 101) for t in (CTOR_TAILS if thorough else ("none", "call2", "dots0", "paren"))]
+    for n, t in big + small:
+        out.append(("ctor/%d/%s" % (n, t), ctor_source(n, t), {"n": n, "tail": t, "r": CTOR_TAILS[t][1]}))
     for n in (0, 1, 49, 50, 51, 100):
         items = "".join("7, " for _ in range(n))
-        out.append(("%d/small" % n, (pre % "...") + "local a, b, c = {" + items + "z()}, {" + items + "two()}, va()\nreturn #a, #b\n"))
+        out.append(("%d/small" % n, (pre % "...") + "local a, b, c = {" + items + "z()}, {" + items + "two()}, va()\nreturn #a, #b\n", None))
     out.append(("groups", "local a, b, c, d, x = 1, 2, 3, 4, true\nlocal u = 0\nfor i = 1, 3 do\nif x then a = b end c = d a = c\n"
                 "local f = function() u = u + i return a, b end\nf()\nif i == 2 then goto cont end\nb = a d = c\n::cont::\nend\n"
                 "for k, v in pairs({1, 2, x = 3}) do u = u + 1 end\nlocal t = {f = function(self, ...) return select('#', ...) end}\n"
-                "u = u + t:f(1, 2, 3)\nlocal s = 'a' .. u .. 'b'\nwhile u > 0 do u = u - 5 if u < 3 then break end end\nrepeat u = u + 1 until u > 2\nreturn s, u\n"))
+                "u = u + t:f(1, 2, 3)\nlocal s = 'a' .. u .. 'b'\nwhile u > 0 do u = u - 5 if u < 3 then break end end\nrepeat u = u + 1 until u > 2\nreturn s, u\n", None))
     return out
 
 
@@ -102,7 +131,10 @@ def dump(cases, tag, timeout=900, trace=False):
     outp = os.path.join(sd, "protos_%s.ndjson" % tag)
     with open(inp, "w") as f:
         for c in cases:
-            f.write(json.dumps({"id": c["id"], "src": case_source(c)}) + "\n")
+            rec = {"id": c["id"], "src": case_source(c)}
+            if c.get("ctor"):
+                rec["probe"] = ctor_probe(c["ctor"]["n"], c["ctor"]["r"])
+            f.write(json.dumps(rec) + "\n")
     if trace:
         vlib.run_harness(["c07-trace", "--in", inp, "--out", outp], timeout=timeout)
     else:
@@ -212,7 +244,7 @@ def words_at(p, pc, before=2, after=3):
 
 def replay_obj(c, p, rule, pc):
     src = case_source(c)
-    o = {"case": {"fam": c["fam"], "name": c["name"], "gen": c.get("gen")}, "proto_path": p["path"], "rule": rule, "pc": pc,
+    o = {"case": {"fam": c["fam"], "name": c["name"], "gen": c.get("gen"), "ctor": c.get("ctor")}, "proto_path": p["path"], "rule": rule, "pc": pc,
          "proto": {"nreg": p["nreg"], "nup": p["nup"], "np": p["np"], "va": p["va"], "nwords": len(p["hi"]),
                    "nconst": len(p["kt"]), "words_near_pc": words_at(p, max(pc, 0))}}
     if len(src) <= BIG_SRC or not c.get("gen"):
@@ -259,6 +291,48 @@ def judge(cases, tag, verd, stats, cov, trace=False):
     return status, protos, verdicts
 
 
+def value_law(dyn, status, verd, stats, cov):
+    """constructor programs of the dyn phase: the digest of the table the real VM built is judged by TLC
+    (CtorTrace.tla) against the closed form the descriptor denotes.  Returns the number judged."""
+    recs, byid = [], {}
+    for c in dyn:
+        d = c.get("ctor")
+        if not d:
+            continue
+        st = status[c["id"]]
+        byid[c["id"]] = c
+        if st["st"] != "ok" or "dig" not in st:
+            verd.candidate("C07:ctor-value:no-table-returned", "constructor program %s did not return its table: %s %s" % (
+                c["name"], st["st"], st.get("msg", "")[:200]), {"case": {"fam": c["fam"], "name": c["name"], "src": c["src"], "ctor": d}})
+            continue
+        g = st["dig"]
+        recs.append({"id": c["id"], "n": d["n"], "r": d["r"], "cnt": g["cnt"], "border": g["border"], "maxkey": g["maxkey"],
+                     "other": g["other"], "probes": g["probes"]})
+    if not recs:
+        return 0
+    fn = "c07_ctor.ndjson"
+    vlib.write_ndjson(os.path.join(vlib.specdir(), fn), recs)
+    r = vlib.run_tlc("CtorTrace", "CtorTrace", consts={"File": '"%s"' % fn}, timeout=600, workers=2, heap="2g")
+    os.remove(os.path.join(vlib.specdir(), fn))
+    vs = r.tag("VERDICT")
+    if len(vs) != len(recs):
+        raise vlib.Infra("CtorTrace: %d verdicts for %d records" % (len(vs), len(recs)))
+    stats["states"] += r.distinct
+    stats["transitions"] += r.generated
+    for v in vs:
+        if v["ok"]:
+            continue
+        c = byid[v["id"]]
+        d = c["ctor"]
+        rule = "ctor-value:%s:%s" % (v["why"], "batches>=512" if d["n"] + d["r"] > 25550 else "batches<512")
+        cov["rules_fired"][rule] = cov["rules_fired"].get(rule, 0) + 1
+        verd.candidate("C07:" + rule, "constructor with %d items + tail %s (%d values) built a wrong table: %s: got %s, the constructor "
+                       "denotes %s" % (d["n"], d["tail"], d["r"], v["why"], v["got"], v["exp"]),
+                       {"case": {"fam": c["fam"], "name": c["name"], "src": c["src"] if len(c["src"]) <= BIG_SRC else None, "ctor": d},
+                        "digest": status[c["id"]]["dig"], "verdict": v})
+    return len(recs)
+
+
 def run(tier):
     t0 = time.time()
     thorough = tier == "thorough"
@@ -277,8 +351,8 @@ def run(tier):
     status, protos, verdicts = {}, [], {}
     # VM-side law: a few programs are also RUN; the pcs the real main loop dispatched must be boundaries
     dyn = []
-    for name, src in dyn_sources(thorough):
-        dyn.append({"id": len(cases) + len(dyn) + 1, "fam": "dyn", "name": name, "src": src, "gen": None})
+    for name, src, desc in dyn_sources(thorough):
+        dyn.append({"id": len(cases) + len(dyn) + 1, "fam": "dyn", "name": name, "src": src, "gen": None, "ctor": desc})
     cases = cases + dyn
     for tag, cs in (("main", normal), ("giant", giant), ("dyn", dyn)):
         if not cs:
@@ -289,6 +363,8 @@ def run(tier):
         for p in pr:
             verdicts[off + p["id"]] = vs[p["id"]]
             protos.append(p)
+    nctor = value_law(dyn, status, verd, stats, cov)
+    vlib.log("[C07]   dyn: %d constructor tables judged against their closed form (CtorTrace)" % nctor)
     mc = mcfut.result()       # MC failure / TLC error = vlib.Infra, raised here
     mcpool.shutdown()
     stats["states"] += mcstats["states"]
@@ -349,7 +425,7 @@ def run(tier):
                 "G-big adversarial families); distinct by hash of code words, register count, constant types and nested "
                 "upvalue counts; non-trivial = contains at least one jump/skip instruction or multi-word group",
         "families": fam, "rules_fired": cov["rules_fired"], "prototypes_violating": nbad, "compiler_panics": panics[:20],
-        "mc_runs": mc, "samples": samples, "exhaustive": False,
+        "constructor_tables_judged": nctor, "mc_runs": mc, "samples": samples, "exhaustive": False,
         "known_findings_hit": sorted(verd.known_hit),
     }, time.time() - t0, len(verd.violations), assumptions=[
         "TLC explores the abstract VM on all one-instruction prototypes over boundary operand values and on all code sequences of <= 3 words (+ RETURN) over a fixed alphabet of instruction instances",
@@ -365,11 +441,16 @@ def run(tier):
 def replay(path):
     rec = json.load(open(path))
     rp = rec["replay"]
-    c = {"id": 1, "fam": rp["case"]["fam"], "name": rp["case"]["name"], "src": rp["case"].get("src"), "gen": rp["case"].get("gen")}
+    c = {"id": 1, "fam": rp["case"]["fam"], "name": rp["case"]["name"], "src": rp["case"].get("src"), "gen": rp["case"].get("gen"),
+         "ctor": rp["case"].get("ctor")}
+    if c["ctor"] and c["src"] is None:
+        c["src"] = ctor_source(c["ctor"]["n"], c["ctor"]["tail"])
     verd = vlib.Verdicts(PROP)
     verd.findings = []
     stats = {"states": 0, "transitions": 0}
-    judge([c], "replay", verd, stats, {"rules_fired": {}}, trace=(c["fam"] == "dyn"))
+    st, _, _ = judge([c], "replay", verd, stats, {"rules_fired": {}}, trace=(c["fam"] == "dyn"))
+    if c["ctor"]:
+        value_law([c], st, verd, stats, {"rules_fired": {}})
     return verd.finish()
 
 
